@@ -190,6 +190,20 @@ pub fn c13(rng: &mut Rng, thorough: bool, idx: u64) -> Spec {
                 p.think(rng.range(0, 20));
             }
         }
+        if !offline && rng.chance(0.25) {
+            // last of all (whatever happens here, everything before it has been judged): a
+            // command sent inside a transaction block
+            p.new_txn();
+            let t = p.tag();
+            p.simple(format!("BEGIN /* {} */", t));
+            let mut c = valid_command(rng, nshards);
+            while !number_fits(&c) {
+                c = valid_command(rng, nshards);
+            }
+            p.simple(c);
+            let t = p.tag();
+            p.simple(format!("{} /* {} */", rng.pick(&["COMMIT", "ROLLBACK"]), t));
+        }
         p.steps.push(Step::Terminate);
         let mut c = client(id, "app", "db", "apppw", rng.range(0, 30), p.steps);
         if offline {
